@@ -38,8 +38,31 @@ const (
 	kEndHeightZ // end-of-height marker for the next height that is a power of 256 (256, 65536, 1<<24, ...): 1, 2, 3 trailing zero bytes
 	kStepZ      // round-state event whose last field (a string) ends in two NUL bytes
 	kPartZ      // block part from a peer whose id (the record's last field) ends in a NUL byte
+	// part "replay" (the real catchupReplay(1) of a node at height 1 consumes the log): the marker of height 0 and
+	// records of kinds the node writes that the state machine ignores (they are for height 2), so that replaying
+	// them neither moves the state nor writes to the WAL that is being read; round = 10 + position identifies them
+	kMarker0
+	kRTimeout
+	kRVote
+	kRProposal
+	kRPart
 	numKinds
 )
+
+// replayTag: how VerifCatchupReplay reports a record of kind k written at position pos ("" = not a replay kind).
+func replayTag(k kind, pos int) string {
+	switch k {
+	case kRTimeout:
+		return fmt.Sprintf("Timeout round=%d", 10+pos)
+	case kRVote:
+		return fmt.Sprintf("Vote round=%d", 10+pos)
+	case kRProposal:
+		return fmt.Sprintf("Proposal round=%d", 10+pos)
+	case kRPart:
+		return fmt.Sprintf("BlockPart round=%d", 10+pos)
+	}
+	return ""
+}
 
 // trailingZero: the kinds whose encoding must end in 0x00 (checked when an image is written)
 func (k kind) trailingZero() bool { return k == kEndHeightZ || k == kStepZ || k == kPartZ }
@@ -47,6 +70,9 @@ func (k kind) trailingZero() bool { return k == kEndHeightZ || k == kStepZ || k 
 // markerHeight: the height a marker of kind k gets when the last marker written had height last (heights ascend,
 // as the node writes them).
 func markerHeight(k kind, last uint64) uint64 {
+	if k == kMarker0 {
+		return last // height 0 when it is the first marker, as OnStart writes it
+	}
 	if k == kEndHeightZ {
 		h := uint64(256)
 		for h <= last {
@@ -57,9 +83,10 @@ func markerHeight(k kind, last uint64) uint64 {
 	return last + 1
 }
 
-func (k kind) isMarker() bool { return k == kEndHeight || k == kEndHeightZ }
+func (k kind) isMarker() bool { return k == kEndHeight || k == kEndHeightZ || k == kMarker0 }
 
-var kindNames = [...]string{"vote/peer", "vote/own", "proposal/peer", "proposal/own", "part100/peer", "part32k/peer", "part45k/peer", "partMax/peer", "timeout", "step", "endheight", "endheight(256^k)", "step(string ends in NUL NUL)", "part100/peer(id ends in NUL)"}
+var kindNames = [...]string{"vote/peer", "vote/own", "proposal/peer", "proposal/own", "part100/peer", "part32k/peer", "part45k/peer", "partMax/peer", "timeout", "step", "endheight", "endheight(256^k)", "step(string ends in NUL NUL)", "part100/peer(id ends in NUL)",
+	"endheight(0)", "timeout(h2)", "vote(h2)/peer", "proposal(h2)/peer", "part100(h2)/peer"}
 
 func (k kind) String() string { return kindNames[k] }
 
@@ -169,8 +196,16 @@ func mkMsg(k kind, pos int, h uint64) cs.WALMessage {
 		m = cs.VerifWALTimeout(3*time.Second, 1, pos, cstypes.RoundStepPropose)
 	case kStep:
 		m = types.EventDataRoundState{Height: 1, Round: pos, Step: cstypes.RoundStepPrevote.String()}
-	case kEndHeight, kEndHeightZ:
+	case kEndHeight, kEndHeightZ, kMarker0:
 		m = cs.EndHeightMessage{Height: h}
+	case kRTimeout:
+		m = cs.VerifWALTimeout(3*time.Second, 2, 10+pos, cstypes.RoundStepPropose)
+	case kRVote:
+		m = cs.VerifWALMsg(&cs.VoteMessage{Vote: f.Vote(1, 2, 10+pos, types.VoteTypePrevote, blockID(pos))}, "peer-1")
+	case kRProposal:
+		m = cs.VerifWALMsg(&cs.ProposalMessage{Proposal: f.Proposal(1, 2, 10+pos, blockID(pos).PartsHeader, -1, types.BlockID{})}, "peer-1")
+	case kRPart:
+		m = cs.VerifWALMsg(&cs.BlockPartMessage{Height: 2, Round: 10 + pos, Part: part(pos, 100)}, "peer-2")
 	case kStepZ:
 		m = types.EventDataRoundState{Height: 1, Round: pos, Step: cstypes.RoundStepPrevote.String() + "\x00\x00"}
 	case kPartZ:
